@@ -1,0 +1,14 @@
+//go:build verif
+
+package pppoe
+
+// Verification hook for property C20 (add-only; compiled only with -tags verif).
+
+// VerifSetNextID puts the session-id counter where n-1 earlier create/remove
+// cycles would have left it (the counter only ever increments), so that id
+// wrap-around near 65535 is reachable without creating 65k sessions per case.
+func (m *SessionManager) VerifSetNextID(n uint16) {
+	m.mu.Lock()
+	m.nextID = n
+	m.mu.Unlock()
+}
